@@ -599,3 +599,6 @@ M("C16", "density-matrix stepper reuses a generator passed in", "kill",
     "        pulser_lindblads: list[torch.Tensor],\n        ham: RydbergLindbladian | None = None,\n    ) -> tuple[torch.Tensor, RydbergLindbladian]:\n        ham = ham or EvolveDensityMatrix.get_hamiltonian(")], "ROLE-sv")
 M("C04", "Hamiltonian type chosen from the basis name", "kill",
   [(PA, "        int_type = self.hamiltonian.basis_data.interaction_type\n", "        int_type = {\"XY\": \"XY\"}.get(self.hamiltonian.basis_data.basis_name, \"ising\")\n")], "DISPATCH-hamiltonian")
+M("C12", "first sparse term bypasses the coalescing sum", "kill",
+  [("emu_sv/sparse_operator.py", "            accum_res = sparse_add(\n                accum_res, coeff * reduce(sparse_kron, single_qubit_gates)\n            )",
+    "            term = coeff * reduce(sparse_kron, single_qubit_gates)\n            accum_res = sparse_add(accum_res, term) if accum_res._nnz() > 0 else term")], "TABLES-terms")
